@@ -320,3 +320,29 @@ fn replay_c16_remove_roundtrip() {
     remove_roundtrip_body(&k0, (rv::num(&v, "l0") as usize).min(3), &k1,
         (rv::num(&v, "l1") as usize).min(3), (rv::num(&v, "nkeys") as usize).min(2));
 }
+
+// native confirmation for Engine-M decoder counterexamples (untrusted counts in the input)
+#[cfg(test)]
+#[test]
+fn replay_c16_decoder_counts() {
+    let inputs: Vec<Vec<u8>> = vec![
+        vec![1, 0, 0, 0, 0x40],             // Remove, num_keys = 2^30, nothing else
+        vec![1, 0xff, 0xff, 0xff, 0xff],    // Remove, num_keys = u32::MAX
+        vec![1, 0xff, 0xff, 0xff, 0x7f, 0, 0, 0, 0],
+        vec![0, 0xff, 0xff, 0xff, 0xff],    // Put, key length u32::MAX
+        vec![1, 2, 0, 0, 0, 0xff, 0xff, 0xff, 0xff],
+    ];
+    for inp in &inputs {
+        let r = std::panic::catch_unwind(|| deserialize_wal_op_raw(inp).is_ok());
+        assert!(matches!(r, Ok(false)), "op decoder on {inp:?}: panicked or accepted a truncated record");
+    }
+    let snaps: Vec<Vec<u8>> = vec![
+        [vec![1, 0, 0, 0, 0, 0, 0, 0], vec![0xff, 0xff, 0xff, 0xff]].concat(),          // num_entries = u32::MAX, no entries
+        [vec![1, 0, 0, 0, 0, 0, 0, 0], vec![1, 0, 0, 0], vec![0xff, 0xff, 0xff, 0xff]].concat(), // key length u32::MAX
+        [vec![0; 8], vec![0, 0, 0, 0x40]].concat(),
+    ];
+    for inp in &snaps {
+        let r = std::panic::catch_unwind(|| deserialize_index_state(inp).is_ok());
+        assert!(matches!(r, Ok(false)), "snapshot decoder on {inp:?}: panicked or accepted a truncated snapshot");
+    }
+}
